@@ -1347,3 +1347,40 @@ def check_underflow_check_sees_all_digits(ctx, res, config="all"):
     if n < 8:
         res.fail(Finding("R3a-anchor-lost", "sub2-callers", "only %d call sites of sub2/sub2rev found (floor 8)" % n, file="src/biguint/subtraction.rs", line=0))
     res.clause("R3a: no call site hands sub2/sub2rev a truncated prefix of the subtrahend (the underflow assertion must see all its digits)")
+
+
+def check_gcd_zero_cases(ctx, res, config="all"):
+    """BigUint::gcd: gcd(0, b) = b and gcd(a, 0) = a are decided by early returns before the binary algorithm
+    (Stein's loop never terminates correctly / strips factors of two when an operand is zero)"""
+    facts = ctx.facts(config)
+    bs = facts.find(trait="num_integer::Integer", self_ty="biguint::BigUint", name="gcd")
+    if len(bs) != 1:
+        res.fail(Finding("R3b-anchor-lost", "gcd", "BigUint::gcd not found", file="src/biguint.rs", line=0))
+        return
+    b = bs[0]
+    tl, atoms = tests_of(b)
+    # "work": the first call that is not an accessor / clone (the twos() helper, shifts, subtraction ...)
+    work = [i for i, t in b.calls() if i in b.live_blocks() and callee_name(t) not in ("is_zero", "clone", "deref") and not core.is_panic_call(t)]
+    for p, other in ((1, 2), (2, 1)):
+        ok = False
+        for t, ztgt, nz in zero_edges(b, p, tl, atoms):
+            region = b.reachable(ztgt, without_blocks=[x for x in nz if x != ztgt])
+            if any(w in region for w in work):
+                continue
+            # returns a clone of the other operand
+            rets_clone = False
+            for x in region:
+                tt = b.blocks[x]["term"]
+                if tt["k"] == "call" and callee_name(tt) == "clone" and tt["dest"]["local"] == 0:
+                    if only_from_param(atoms.of_operand(tt["args"][0]), other):
+                        rets_clone = True
+            if not rets_clone or fate(b, ztgt) != "return":
+                continue
+            if all(b.edge_dominates((t.bb, x), w) for w in work for x in nz[:1]):
+                ok = True
+        key = "gcd(%s)" % ("0, b" if p == 1 else "a, 0")
+        if ok:
+            res.ok("R3b-gcd-zero-case", key, {"returns": "the other operand, before the binary algorithm"})
+        else:
+            res.fail(Finding("R3b-gcd-zero-case", key, "BigUint::gcd has no early return of the other operand for a zero operand %d before entering the binary (Stein) algorithm" % p, b))
+    res.clause("C13: BigUint::gcd returns the other operand for a zero operand (both sides) before the binary algorithm starts")
